@@ -84,20 +84,12 @@ def gen_fields(rng, vendor=None, ptype=None, namelen=None):
             "state": rng.randrange(256), "ip": rng.choice([0, 1, 0xFFFFFFFF, 0x0A000001, rng.getrandbits(32), rng.getrandbits(32)])}
 
 
-def run(ctx, model):
+def codec_level(ctx, model, cases):
+    """identity objects as codecs: decode of the wire form gives the presented fields, encode . decode = id, the
+    model decodes / encodes the same (also run by C06, whose statement names the identity objects)"""
     from pycomm3.custom_types import ModuleIdentityObject, ListIdentityObject
-    from pycomm3 import LogixDriver
     rng = ctx.rng
-    lines, pend = [], []
     blines, bpend = [], []
-    # ---- codec level: every vendor / product-type id (stride in quick), every name length
-    stride = ctx.budget(13, 1)
-    vend, ptypes, src = listed_tables()
-    ctx.extra["name_listings"] = src
-    cases = [gen_fields(rng, vendor=v) for v in range(0, 65536, stride)] + [gen_fields(rng, ptype=p) for p in range(0, 65536, stride)] + \
-            [gen_fields(rng, vendor=v) for v in sorted(vend)] + [gen_fields(rng, ptype=p) for p in sorted(ptypes)] + \
-            [gen_fields(rng, namelen=n) for n in range(256)] + [gen_fields(rng) for _ in range(ctx.budget(500, 5000))]
-    ctx.extra["exhaustive_subdomains"] = "every listed vendor id and product-type id; all ids 0..65535 with stride %d; product-name lengths 0..255" % stride
     for f in cases:
         bs = ident_bytes(f)
         tail = bytes(rng.getrandbits(8) for _ in range(rng.choice([0, 0, 2])))
@@ -146,6 +138,22 @@ def run(ctx, model):
             m = model_decode_parse(out)
             if not same_decode(impl, m):
                 ctx.mismatch(stream, {"bytes": bs.hex()[:200]}, repr(impl)[:300], out[:300])
+
+
+def run(ctx, model):
+    from pycomm3.custom_types import ModuleIdentityObject, ListIdentityObject
+    from pycomm3 import LogixDriver
+    rng = ctx.rng
+    lines, pend = [], []
+    # ---- codec level: every vendor / product-type id (stride in quick), every name length
+    stride = ctx.budget(13, 1)
+    vend, ptypes, src = listed_tables()
+    ctx.extra["name_listings"] = src
+    cases = [gen_fields(rng, vendor=v) for v in range(0, 65536, stride)] + [gen_fields(rng, ptype=p) for p in range(0, 65536, stride)] + \
+            [gen_fields(rng, vendor=v) for v in sorted(vend)] + [gen_fields(rng, ptype=p) for p in sorted(ptypes)] + \
+            [gen_fields(rng, namelen=n) for n in range(256)] + [gen_fields(rng) for _ in range(ctx.budget(500, 5000))]
+    ctx.extra["exhaustive_subdomains"] = "every listed vendor id and product-type id; all ids 0..65535 with stride %d; product-name lengths 0..255" % stride
+    codec_level(ctx, model, cases)
     # ---- driver level: list_identity / get_module_info / get_plc_info against the target
     for i in range(ctx.budget(150, 1500)):
         f = gen_fields(rng)
